@@ -1,11 +1,91 @@
+import TinysetModel.Proofs.PropsAux
+import TinysetModel.Proofs.Demo
 import TinysetModel.Proofs.Consts
-/-! C17 — see /verif/properties.jsonl.  Theorems for this property are being added; the ones
-below are the obligations checked so far. -/
+/-! C17 — deterministic_iteration: the order depends only on the set's own history.
+
+With the `deterministic_iteration` feature every random choice of the library (growth amounts, zero
+placeholders) is the value `detRng.draw () cap bits`: a pure function of the `cap` and `bits` of the set at hand,
+with no seed, counter, clock or thread-local state.  In the model this is visible in the TYPE: `detRng : Rng Unit`
+— the generator's state type has exactly one value, so there is nothing a run could depend on besides its start
+value and its history.  The theorems: (1) the draw is the function of `(cap, bits)` with the multipliers read from
+the current source; (2) two executions of the same history return the SAME representation — hence the same
+iteration sequence `elems` and the same `capacity()` — and the same answers; (3) those answers are the ideal ones.
+That the compiled crate in that configuration has no other source of variation across threads, processes and
+time (e.g. no address-dependent behaviour) is not a statement about the model: the harness replays histories in
+several threads and separate processes and compares the iteration sequences. -/
 namespace C17
 open SC
 
-/-- the model's constants are the ones in the current source -/
-theorem consts_match : TinyC.codec64.splits = Gen.bitsplits64 ∧ TinyC.codec32.splits = Gen.bitsplits32 :=
-  ⟨bitsplits64_match, bitsplits32_match⟩
+/-- (1) the deterministic generator is `(cap * M1 mod 2^64) xor (bits * M2 mod 2^64)` with `M1`, `M2` the
+constants found in the source, for every state argument -/
+theorem det_draw_is_source (cap bits : Nat) :
+    (detRng.draw () cap bits).1 = ((cap * Gen.detMul1) % 2 ^ 64) ^^^ ((bits * Gen.detMul2) % 2 ^ 64) := detRng_match cap bits
+
+/-- its state carries no information: any two states are equal, so a draw cannot depend on the state -/
+theorem det_state_trivial (d d' : Unit) (cap bits : Nat) : d = d' ∧ detRng.draw d cap bits = detRng.draw d' cap bits := ⟨rfl, rfl⟩
+
+section generic
+variable {c : Cfg}
+
+/-- (2) a run with a `Unit`-state generator is a function of the start value and the history alone -/
+theorem run_is_function_of_history (fuel : Nat) (r : Rp) (ops : List Op) (d₁ d₂ : Unit) :
+    runOps c detRng fuel r ops d₁ = runOps c detRng fuel r ops d₂ := unit_replay detRng fuel r ops d₁ d₂
+
+/-- replaying the same history on a fresh set gives the identical representation, so the identical iteration
+sequence and `capacity()`, and identical answers — whatever happened to other sets in between (other sets are
+other values; they are not inputs of this run) -/
+theorem replay_identical (fuel : Nat) (ops : List Op) {d₁ d₁' d₂ d₂' : Unit} {r₁ r₂ : Rp} {o₁ o₂ : List Out}
+    (h1 : runOps c detRng fuel .empty ops d₁ = .ok ((r₁, o₁), d₁'))
+    (h2 : runOps c detRng fuel .empty ops d₂ = .ok ((r₂, o₂), d₂')) :
+    r₁ = r₂ ∧ o₁ = o₂ ∧ elems c r₁ = elems c r₂ ∧ capacity r₁ = capacity r₂ := unit_replay_ok detRng fuel .empty ops h1 h2
+
+/-- the same for collect() and for the operators: all are functions of their arguments -/
+theorem collect_is_function (fuel : Nat) (xs : List Nat) (d₁ d₂ : Unit) :
+    fromIter c detRng fuel xs d₁ = fromIter c detRng fuel xs d₂ := rfl
+theorem union_is_function (fuel : Nat) (a b : Rp) (d₁ d₂ : Unit) :
+    unionRef c detRng fuel a b d₁ = unionRef c detRng fuel a b d₂ := rfl
+
+/-- (3) and the deterministic run answers like the ideal set -/
+theorem det_history (ok : CfgOK c) (fuel : Nat) (ops : List Op) (hops : ∀ op ∈ ops, op.InRange c.W)
+    {d d' : Unit} {r' : Rp} {outs : List Out} (h : runOps c detRng fuel .empty ops d = .ok ((r', outs), d')) :
+    WF c r' ∧ outs = (specRun [] ops).2 ∧ (∀ x, x ∈ elems c r' ↔ x ∈ (specRun [] ops).1) :=
+  run_refines_empty ok detRng fuel ops hops h
+
+end generic
+
+/-! ### instances -/
+
+theorem replay_identical_u64 (fuel : Nat) (ops : List Op) {d₁ d₁' d₂ d₂' : Unit} {r₁ r₂ : Rp} {o₁ o₂ : List Out}
+    (h1 : runOps cfg64 detRng fuel .empty ops d₁ = .ok ((r₁, o₁), d₁'))
+    (h2 : runOps cfg64 detRng fuel .empty ops d₂ = .ok ((r₂, o₂), d₂')) :
+    r₁ = r₂ ∧ o₁ = o₂ ∧ elems cfg64 r₁ = elems cfg64 r₂ ∧ capacity r₁ = capacity r₂ := unit_replay_ok detRng fuel .empty ops h1 h2
+theorem replay_identical_u32 (fuel : Nat) (ops : List Op) {d₁ d₁' d₂ d₂' : Unit} {r₁ r₂ : Rp} {o₁ o₂ : List Out}
+    (h1 : runOps cfg32 detRng fuel .empty ops d₁ = .ok ((r₁, o₁), d₁'))
+    (h2 : runOps cfg32 detRng fuel .empty ops d₂ = .ok ((r₂, o₂), d₂')) :
+    r₁ = r₂ ∧ o₁ = o₂ ∧ elems cfg32 r₁ = elems cfg32 r₂ ∧ capacity r₁ = capacity r₂ := unit_replay_ok detRng fuel .empty ops h1 h2
+theorem det_history_u64 (fuel : Nat) (ops : List Op) (hops : ∀ op ∈ ops, op.InRange 64)
+    {d d' : Unit} {r' : Rp} {outs : List Out} (h : runOps cfg64 detRng fuel .empty ops d = .ok ((r', outs), d')) :
+    WF cfg64 r' ∧ outs = (specRun [] ops).2 ∧ (∀ x, x ∈ elems cfg64 r' ↔ x ∈ (specRun [] ops).1) :=
+  run_refines_empty cfg64_ok detRng fuel ops hops h
+theorem det_history_u32 (fuel : Nat) (ops : List Op) (hops : ∀ op ∈ ops, op.InRange 32)
+    {d d' : Unit} {r' : Rp} {outs : List Out} (h : runOps cfg32 detRng fuel .empty ops d = .ok ((r', outs), d')) :
+    WF cfg32 r' ∧ outs = (specRun [] ops).2 ∧ (∀ x, x ∈ elems cfg32 r' ↔ x ∈ (specRun [] ops).1) :=
+  run_refines_empty cfg32_ok detRng fuel ops hops h
+
+/-! ### the hypotheses are satisfiable, and the statement is not empty: with a generator that HAS state the
+representation (not the contents) does depend on that state -/
+
+/-- deterministic runs that return, with growth and a drawn placeholder on the way -/
+example : elems cfg64 Demo.plain64 = elems cfg64 Demo.plain64 ∧ capacity Demo.plain64 = capacity Demo.plain64 :=
+  (replay_identical_u64 6 Demo.opsPlain64 Demo.plain64_run Demo.plain64_run).2.2
+/-- the scripted generator (`scriptRng`, state = the draws still to hand out): two different scripts give two
+different placeholders for the same history -/
+example : runOps cfg64 scriptRng 6 .empty [.ins (2 ^ 63)] [1000] ≠ runOps cfg64 scriptRng 6 .empty [.ins (2 ^ 63)] [2000] := by
+  decide +kernel
 
 end C17
+
+#print axioms C17.det_draw_is_source
+#print axioms C17.run_is_function_of_history
+#print axioms C17.replay_identical
+#print axioms C17.det_history
